@@ -22,6 +22,17 @@ def hide(node):
             return ["call", ["id", f], node]
         if node and node[0] == "tacc":
             return ["tacc", hide(node[1]), node[2]]
+        # parameter lists and types are not expressions (a parameter may be called `c`)
+        if node and node[0] == "fndecl" and len(node) == 5:
+            return node[:4] + [hide(node[4])]
+        if node and node[0] == "fn" and len(node) == 4:
+            return node[:3] + [hide(node[3])]
+        if node and node[0] in ("mut", "tfilter") and len(node) == 3:
+            return [node[0], node[1], hide(node[2])] if node[0] == "mut" else [node[0], hide(node[1]), node[2]]
+        if node and node[0] in ("ifset", "whileset"):
+            return node[:3] + [hide(x) for x in node[3:]]
+        if node and node[0] == "atype":
+            return node[:3] + [hide(x) for x in node[3:]]
         return [hide(x) for x in node]
     return node
 
